@@ -375,7 +375,7 @@ def _explore(rule, fn, st0, depth, top, budget, stack):
         for e in blk.elems:
             nxt = []
             for s in states:
-                nxt.extend(_elem(rule, fn, s, e, depth, budget, stack, exits, top))
+                nxt.extend(_elem(rule, fn, s, e, depth, budget, stack, exits, top, blk))
             states = nxt
             if not states:
                 break
@@ -396,6 +396,15 @@ def _explore(rule, fn, st0, depth, top, budget, stack):
                     s2 = _branch(rule, fn, s, blk, cond, lab)
                     if s2 is None:
                         continue
+                    if blk.term["k"] in LOGICAL and lab in ("T", "F"):
+                        # the value of a short-circuit operator that is used as a value (initialiser, return, argument) is
+                        # decided by the edge its left operand takes: remembered for _eval_cond/_assume
+                        L = _logical_node(fn, blk)
+                        if L is not None:
+                            if (blk.term["k"] == "&&") == (lab == "F"):
+                                s2 = s2.set(("lv", L), ZERO if lab == "F" else POS).set(("la", L), None)
+                            else:
+                                s2 = s2.set(("la", L), POS if lab == "T" else ZERO).set(("lv", L), None)
                 if succ == fn.exit and not any(fn.nodes[x]["k"] == "return" for x in blk.elems):
                     # implicit return of a void function
                     rule.on_exit(fn, s2, None, None, top)
@@ -471,9 +480,165 @@ def truth(fn, st, nid):
     return None
 
 
+LOGICAL = ("&&", "||")
+COMPARE = ("==", "!=", "<", "<=", ">", ">=")
+
+
+def _logical_node(fn, blk):
+    """the `&&` / `||` node whose left operand is the condition of blk's terminator"""
+    m = getattr(fn, "_logical_of", None)
+    if m is None:
+        m = {}
+        for nid, n in fn.nodes.items():
+            if n["k"] == "bin" and n["op"] in LOGICAL:
+                m[n["l"]] = nid
+                m.setdefault(fn._strip0(n["l"]), nid)
+        fn._logical_of = m
+    c = blk.term.get("cond")
+    return m.get(c, m.get(fn._strip0(c)) if c is not None else None)
+
+
+def _cond_shape(fn, nid):
+    """the node of a condition-shaped expression (logical, comparison, negation) behind parens and implicit casts - no
+    copy propagation - or None"""
+    while True:
+        n = fn.nodes[nid]
+        if n["k"] in ("paren", "opaque") or (n["k"] == "cast" and n.get("implicit")):
+            nid = n["sub"]
+            continue
+        break
+    if (n["k"] == "bin" and n["op"] in LOGICAL + COMPARE) or (n["k"] == "un" and n["op"] == "!"):
+        return nid
+    return None
+
+
+def _eval_cond(fn, st, nid):
+    """1 / 0 / None: truth of a condition-shaped expression under the facts of this path (no hooks, no state change)"""
+    cs = _cond_shape(fn, nid)
+    if cs is not None:
+        n = fn.nodes[cs]
+        if n["k"] == "un":
+            t = _eval_cond(fn, st, n["sub"])
+            return None if t is None else 1 - t
+        if n["op"] in LOGICAL:
+            lv = st.get(("lv", cs))
+            if lv in (ZERO, POS):
+                return 0 if lv == ZERO else 1
+            la = st.get(("la", cs))
+            a = (0 if la == ZERO else 1) if la in (ZERO, POS) else _eval_cond(fn, st, n["l"])
+            b = _eval_cond(fn, st, n["r"])
+            if n["op"] == "&&":
+                if a == 0 or b == 0:
+                    return 0
+                return 1 if a == 1 and b == 1 else None
+            if a == 1 or b == 1:
+                return 1
+            return 0 if a == 0 and b == 0 else None
+        l, op, r = n["l"], n["op"], n["r"]
+        ea = errno_atom(fn, l, op, r)
+        if ea:
+            o, k = ea
+            e = st.efact
+            if e and e[0] == "eq":
+                return (1 if e[1] == k else 0) if o == "==" else (0 if e[1] == k else 1)
+            if e and e[0] == "ne" and k in e[1]:
+                return 0 if o == "==" else 1
+            return None
+        c = C.const_of(fn, r)
+        if c is None:
+            return None
+        want, have = cls_from_cmp(op, c), _class_of(fn, st, l)
+        if want is None or have is None:
+            return None
+        m = meet(have, want)
+        if m == "BOT":
+            return 0
+        # sign classes describe a comparison with 0 exactly; for another constant only the impossibility is decided
+        return 1 if m == have and c == 0 else None
+    return truth(fn, st, nid)
+
+
+def _assume(rule, fn, st, blk, nid, want):
+    """the state in which the condition-shaped expression has the given truth value (facts of its atoms applied through
+    _branch, so the rule's hooks see them), or None when that is impossible on this path.  A disjunction of failures
+    (`a && b` false with neither known) adds nothing."""
+    cs = _cond_shape(fn, nid)
+    if cs is None or not (fn.nodes[cs]["k"] == "bin" and fn.nodes[cs]["op"] in LOGICAL) and fn.nodes[cs]["k"] != "un":
+        return _branch(rule, fn, st, blk, nid, "T" if want else "F")
+    n = fn.nodes[cs]
+    if n["k"] == "un":
+        return _assume(rule, fn, st, blk, n["sub"], not want)
+    conj = (n["op"] == "&&") == bool(want)        # both operands decided: `a && b` true, `a || b` false
+    if conj:
+        s1 = _assume(rule, fn, st, blk, n["l"], want)
+        return None if s1 is None else _assume(rule, fn, s1, blk, n["r"], want)
+    la = st.get(("la", cs))
+    a = (0 if la == ZERO else 1) if la in (ZERO, POS) else _eval_cond(fn, st, n["l"])
+    b = _eval_cond(fn, st, n["r"])
+    if st.get(("lv", cs)) in (ZERO, POS):
+        return st if (st.get(("lv", cs)) == POS) == bool(want) else None
+    other = 1 if n["op"] == "&&" else 0             # the value that does NOT decide the operator
+    if a is not None and a != other or b is not None and b != other:
+        return st
+    if a == other and b == other:
+        return None
+    if a == other:
+        return _assume(rule, fn, st, blk, n["r"], want)
+    if b == other:
+        return _assume(rule, fn, st, blk, n["l"], want)
+    return st
+
+
+def _cond_temp(rule, fn, st, blk, vk, init):
+    """`bool failed = call() < 0 && errno != EAGAIN;` - a named condition whose operands were evaluated on this path (a
+    call among them, so copy propagation does not apply): the path forks on its truth, each side with the facts of
+    the atoms, and the variable's class records the side.  -> list of states, or None when init has no such shape"""
+    cs = _cond_shape(fn, init)
+    if cs is None or blk is None or not any(fn.nodes[x]["k"] == "call" or fn.show(x) == "errno" for x in fn.walk(cs)):
+        return None
+    out = []
+    for want in (True, False):
+        s2 = _assume(rule, fn, st, blk, cs, want)
+        if s2 is not None:
+            out.append(s2.set(vk, POS if want else ZERO).set(("src", vk), None))
+    return out
+
+
 def _branch(rule, fn, st, blk, cond, lab):
     if lab in ("T", "F"):
+        # a named condition whose truth this path has already decided (see _cond_temp)
+        x, neg = cond, False
+        while True:
+            xn = fn.nodes[x]
+            if xn["k"] in ("paren", "opaque") or (xn["k"] == "cast" and xn.get("implicit")):
+                x = xn["sub"]
+            elif xn["k"] == "un" and xn["op"] == "!":
+                x, neg = xn["sub"], not neg
+            else:
+                break
+        if xn["k"] == "ref" and xn.get("dk") == "local":
+            vk = vkey(xn["name"], xn.get("did"))
+            have = st.get(vk)
+            if have in (POS, ZERO, NONZERO, NEG):
+                m = meet(have, NONZERO if (lab == "T") != neg else ZERO)
+                if m == "BOT":
+                    return None
+                u = rule.on_branch(fn, st, blk, cond, lab)
+                if u is C.DEAD:
+                    return None
+                return st.with_user(u) if u is not None else st
         l, op, r = C.cond_atom(fn, cond, lab == "T")
+        if not isinstance(l, tuple) and C.const_of(fn, r) == 0 and op in ("!=", "=="):
+            cs = _cond_shape(fn, l)
+            if cs is not None and fn.nodes[cs]["k"] == "bin" and fn.nodes[cs]["op"] in LOGICAL:
+                # `bool both = a && b; if (both)`: read through to the operands
+                s2 = _assume(rule, fn, st, blk, cs, op == "!=")
+                if s2 is None:
+                    return None
+                u = rule.on_branch(fn, s2, blk, cond, lab)
+                if u is C.DEAD:
+                    return None
+                return s2.with_user(u) if u is not None else s2
         c = C.const_of(fn, r)
         # errno facts
         ea = errno_atom(fn, l, op, r)
@@ -529,7 +694,7 @@ def _branch(rule, fn, st, blk, cond, lab):
     return st
 
 
-def _elem(rule, fn, st, nid, depth, budget, stack, exits, top):
+def _elem(rule, fn, st, nid, depth, budget, stack, exits, top, blk=None):
     """-> list of successor states"""
     P = rule.prog
     n = fn.nodes[nid]
@@ -647,6 +812,11 @@ def _elem(rule, fn, st, nid, depth, budget, stack, exits, top):
             st = st.with_user(u)
         return [st]
     if k == "decl":
+        if len(n["vars"]) == 1 and n["vars"][0].get("init") is not None:
+            v = n["vars"][0]
+            forks = _cond_temp(rule, fn, st, blk, vkey(v["name"], v.get("did")), v["init"])
+            if forks is not None:
+                return forks
         for v in n["vars"]:
             c = _class_of(fn, st, v["init"]) if v.get("init") is not None else None
             vk = vkey(v["name"], v.get("did"))
@@ -659,7 +829,19 @@ def _elem(rule, fn, st, nid, depth, budget, stack, exits, top):
                     st = st.with_user(u0)
         return [st]
     if k == "return":
+        cs = _cond_shape(fn, n["sub"]) if n.get("sub") is not None and blk is not None else None
+        if cs is not None and _eval_cond(fn, st, cs) is None:
+            # `return a && b;` - a predicate helper: one exit per truth value, each with the facts of the atoms
+            for want in (True, False):
+                s2 = _assume(rule, fn, st, blk, cs, want)
+                if s2 is not None:
+                    rule.on_exit(fn, s2, nid, POS if want else ZERO, top)
+                    exits.add((St(frozenset(), s2.errno, s2.user), POS if want else ZERO))
+            return []
         rc = _class_of(fn, st, n["sub"]) if n.get("sub") is not None else None
+        if rc is None and cs is not None:
+            t = _eval_cond(fn, st, cs)
+            rc = None if t is None else (POS if t else ZERO)
         rule.on_exit(fn, st, nid, rc, top)
         exits.add((St(frozenset(), st.errno, st.user), rc))
         return []
